@@ -11,6 +11,7 @@ import logging
 import os
 import random
 import re
+import sys
 import ssl
 import string
 from typing import TYPE_CHECKING, Optional
@@ -48,6 +49,21 @@ BACKLOG = 5
 #
 RE_LITERAL_STRING_START = re.compile(rb"\{(\d+)(\+)?\}$")
 RE_LITERAL_AT_END_OF_LINE = re.compile(rb"\{(\d+)\}\r\n$")
+
+
+####################################################################
+#
+def literal_size(digits: bytes) -> int:
+    """
+    The number of octets a literal header (`{digits}`) announces. A header
+    may have any number of digits (more than `int()` converts: that raised
+    ValueError and dropped the connection); what is beyond any size we would
+    ever read is just that, very large.
+    """
+    digits = digits.lstrip(b"0") or b"0"
+    if len(digits) > 18:
+        return sys.maxsize
+    return int(digits)
 
 # This dict is all of the subprocesses that we have created. One for each
 # authenticated user with at least one active connection.
@@ -507,18 +523,13 @@ class IMAPClient:
         relayed right now, if any, is complete. In the middle of it (inside a
         literal) our text would be taken for part of that response.
         """
-        try:
-            # (not for ever: the client may be waiting for just this)
-            #
-            async with asyncio.timeout(10):
-                await self.relay_lock.acquire()
-        except TimeoutError:
+        # NOTE: However long that takes. A response stays incomplete for a
+        #       long time only when the client is not reading it, and then it
+        #       is not reading what we have to say either; giving up after a
+        #       while put our line into the middle of the literal.
+        #
+        async with self.relay_lock:
             await self.push(*data)
-            return
-        try:
-            await self.push(*data)
-        finally:
-            self.relay_lock.release()
 
     ####################################################################
     #
@@ -564,7 +575,7 @@ class IMAPClient:
                 #
                 m = RE_LITERAL_STRING_START.search(msg)
                 if m:
-                    literal_str_length = int(m.group(1))
+                    literal_str_length = literal_size(m.group(1))
 
                     # Reject literals that exceed the maximum input
                     # size to prevent memory exhaustion.
@@ -735,7 +746,7 @@ class IMAPClient:
                 # (The end of the line still matters: it may declare a
                 # literal that follows.)
                 #
-                tail = (tail + data)[-64:]
+                tail = (tail + data)[-8192:]
             size += len(data)
             if complete:
                 return b"".join(parts) + tail
@@ -768,7 +779,7 @@ class IMAPClient:
             m = RE_LITERAL_STRING_START.search(msg.rstrip())
             if not m or not m.group(2):
                 return
-            literal_str_length = int(m.group(1))
+            literal_str_length = literal_size(m.group(1))
 
     ####################################################################
     #
@@ -1154,6 +1165,7 @@ class IMAPSubprocessInterface:
         relay_lock = self.imap_client.relay_lock
         in_response = False
         literal_left = 0
+        carry = b""
         try:
             while True:
                 if self.reader.at_eof():
@@ -1175,14 +1187,23 @@ class IMAPSubprocessInterface:
                     #
                     msg = await self.reader.read(exc.consumed)
                     complete = False
-                m = RE_LITERAL_AT_END_OF_LINE.search(msg) if complete else None
+                # (The `{n}` at the end of a line may have come in two
+                # pieces, when what came before it was longer than the
+                # stream reader's limit.)
+                #
+                m = (
+                    RE_LITERAL_AT_END_OF_LINE.search(carry + msg)
+                    if complete
+                    else None
+                )
+                carry = b"" if complete else (carry + msg)[-64:]
                 more_to_come = m is not None or not complete
                 if more_to_come and not in_response:
                     await relay_lock.acquire()
                     in_response = True
                 await self.imap_client.push(msg)
                 if m is not None:
-                    literal_left = int(m.group(1))
+                    literal_left = literal_size(m.group(1))
                 if in_response and not more_to_come:
                     relay_lock.release()
                     in_response = False
